@@ -67,7 +67,21 @@ def run(ctx: Any, prog: Program) -> None:
                 continue
             env = FormEnv(fn, call_forms=call_forms)
             sites = []
-            for n in walk_no_nested(fn):
+            # the method itself and the private helpers of the class it calls on self (a shared `_lookup(name)`): one level
+            scope_fns = [fn] + [ms[c.func.attr] for c in walk_no_nested(fn) if isinstance(c, ast.Call) and isinstance(c.func, ast.Attribute) and dotted(c.func.value) == 'self'
+                               and c.func.attr in ms and c.func.attr.startswith('_') and not c.func.attr.startswith('__') and c.func.attr not in ('_get_file', '_file_exists', '_clean_path')]
+            for sfn in scope_fns:
+              senv = env if sfn is fn else FormEnv(sfn, call_forms=call_forms)
+              for n in walk_no_nested(sfn):
+                if isinstance(n, ast.Subscript) and dotted(n.value) == f'self.{index}':
+                    sites.append((n, n.slice, senv))
+                    continue
+                if isinstance(n, ast.Compare) and isinstance(n.ops[0], (ast.In, ast.NotIn)) and dotted(n.comparators[0]) == f'self.{index}':
+                    sites.append((n, n.left, senv))
+                    continue
+                if isinstance(n, ast.Call) and isinstance(n.func, ast.Attribute) and n.func.attr in ('get', 'pop') and dotted(n.func.value) == f'self.{index}' and n.args:
+                    sites.append((n, n.args[0], senv))
+            for n in []:
                 if isinstance(n, ast.Subscript) and dotted(n.value) == f'self.{index}':
                     sites.append((n, n.slice))
                 if isinstance(n, ast.Compare) and isinstance(n.ops[0], (ast.In, ast.NotIn)) and dotted(n.comparators[0]) == f'self.{index}':
@@ -87,8 +101,8 @@ def run(ctx: Any, prog: Program) -> None:
                               'so spellings differing in case (or slash style) stop resolving alike across the backends', func=f'{cls}.{mname}', text=f'{cls}.{mname} lookup key form')
                 else:
                     ctx.shape('C19.H1', False, fs, fn, f'{cls}.{mname} does not consult self.{index}', func=f'{cls}.{mname}', text=f'{cls}.{mname} lookup key form')
-            for node, kexpr in sites:
-                form = env.form(kexpr)
+            for node, kexpr, senv in sites:
+                form = senv.form(kexpr)
                 ok = FOLDED in form and SLASHED in form and (('CLEAN' in form) == clean)
                 ctx.check('C19.H1', ok, fs, node, f'{cls}.{mname} looks up `{U(kexpr)}` (form {sorted(form)}) but the index keys have form {sorted(key_form)}: '
                           'names differing in case or slash style resolve differently', func=f'{cls}.{mname}', text=f'{cls}.{mname} lookup key form')
